@@ -432,6 +432,7 @@ def run(tier):
     rule_R5(res, prog)
     rule_R3(res, prog)
     rule_R6(res, prog)
+    rule_R3b(res, prog)
     res.floor("C19.R1", 150)
     res.floor("C19.R2", 3)
     res.floor("C19.R3", 30)
@@ -880,3 +881,82 @@ def rule_R6(res, prog):
                                      file=fn.relfile, line=ln)
                     res.instance(rid, "%s:%s %s sized by %s" % (fn.name, ln, pp(l)[:40], pp(L)[:40]), esc is None, finding=f_)
     res.floor(rid, 15)
+
+
+def rule_R3b(res, prog):
+    """A buffer owned by a field and handed to a callee through a local struct copy: when the callee may free and
+    re-allocate the copy's pointer (free(P->buf); P->buf = alloc(..)), the caller writes the pointer back to the owning
+    field on every path after the call - also on the callee's failure path.  Otherwise the field keeps the freed pointer
+    (use after free / double free when the session is deleted)."""
+    from sa import cfgutil as cu
+    from sa.pp import pp
+    rid = "C19.R3b"
+    res.rule(rid, "a field's buffer passed by local struct copy to a callee that may re-allocate it is written back on every path after the call")
+    FREE = {"free", "psFreeNoPool", "psFreeNative"}
+    # callees: (qname, param index, field) such that the function frees P->field
+    realloc_params = {}
+    for fn in prog.functions.values():
+        pidx = {p_.get("id"): i for i, p_ in enumerate(fn.params)}
+        for b, ln, c in fn.calls():
+            if c.get("fn") in FREE and c.get("a"):
+                a = strip(c["a"][0])
+                while a is not None and a.get("k") == "cast":
+                    a = strip(a["e"])
+                if a is not None and a.get("k") == "mem":
+                    base = strip(a.get("b") or a.get("e") or {})
+                    while base is not None and base.get("k") == "cast":
+                        base = strip(base["e"])
+                    if base is not None and base.get("k") == "var" and base.get("id") in pidx:
+                        realloc_params.setdefault(fn.name, set()).add((pidx[base["id"]], a["f"]))
+    n = 0
+    for fn in sorted(prog.functions.values(), key=lambda f: f.qname):
+        if not fn.blocks:
+            continue
+        for b in fn.blocks:
+            for idx, ln, x in cu.block_exprs(b):
+                for c in walk(x):
+                    if c.get("k") != "call" or c.get("fn") not in realloc_params:
+                        continue
+                    for (pi, fld) in sorted(realloc_params[c["fn"]]):
+                        if pi >= len(c.get("a", [])):
+                            continue
+                        a = strip(c["a"][pi])
+                        if a is None or a.get("k") != "un" or a["op"] != "&":
+                            continue
+                        L = strip(a["e"])
+                        if L is None or L.get("k") != "var" or L.get("sc") != "l":
+                            continue
+                        # owner: L.fld = <field path> somewhere in the caller
+                        owners = []
+                        for b2, l2, m in fn.nodes():
+                            if m.get("k") == "bin" and m["op"] == "=":
+                                l_ = strip(m["l"])
+                                r_ = strip(m["r"])
+                                while r_ is not None and (r_.get("k") == "cast" or (r_.get("k") == "bin" and r_["op"] == "=")):
+                                    r_ = strip(r_["e"] if r_.get("k") == "cast" else r_["r"])
+                                if l_ is not None and l_.get("k") == "mem" and l_.get("f") == fld and \
+                                        (strip(l_.get("b") or l_.get("e") or {}) or {}).get("id") == L.get("id") and \
+                                        r_ is not None and r_.get("k") == "mem":
+                                    owners.append(r_)
+                        if not owners:
+                            continue
+                        own = owners[0]
+                        otxt = cu.ftext(own)
+                        n += 1
+
+                        def writes_back(e, otxt=otxt, L=L, fld=fld):
+                            for m in walk(e):
+                                if m.get("k") == "bin" and m["op"] == "=" and cu.ftext(strip(m["l"])) == otxt:
+                                    return any(q.get("k") == "mem" and q.get("f") == fld and
+                                               (strip(q.get("b") or q.get("e") or {}) or {}).get("id") == L.get("id") for q in walk(m["r"]))
+                            return False
+                        esc = cu.escapes(fn, (b["id"], idx), writes_back)
+                        f_ = None
+                        if esc is not None:
+                            f_ = Finding(PROP, rid, fn.name, "%s not written back after %s" % (pp(own)[:30], c["fn"]),
+                                         "%s:%s %s(): %s(.., &%s, ..) may free and re-allocate %s.%s, which aliases %s; the path via lines %s "
+                                         "returns without `%s = %s.%s`: the field keeps the freed pointer (use after free / double free later)" % (
+                                             fn.relfile, ln, fn.name, c["fn"], L["n"], L["n"], fld, pp(own)[:30],
+                                             [p_[1] for p_ in esc[-5:]], pp(own)[:30], L["n"], fld), file=fn.relfile, line=ln)
+                        res.instance(rid, "%s:%s %s(&%s): %s written back on every path" % (fn.name, ln, c["fn"], L["n"], pp(own)[:30]), esc is None, finding=f_)
+    res.floor(rid, 1)
